@@ -170,6 +170,10 @@ func impl(ops []string) []string {
 
 var bounds = []int64{0, 1, 2, 3, 4, 5, 6, 8, 9, 1<<53 - 1, 1 << 53, 1<<53 + 1, 1<<63 - 2, 1<<63 - 1}
 
+// query rounds are drawn from the whole int64 range (a comparison rewritten as a subtraction overflows for pairs more
+// than 2^63 apart); stored starts stay non-negative except in the negative-start cases.
+var qbounds = []int64{-1 << 63, -1<<63 + 1, -(1 << 62), -2, -1, 0, 1, 4, 5, 6, 1 << 62, 1<<63 - 2, 1<<63 - 1}
+
 // gen: starts from a narrow window (so that floors, ties, re-puts and prunes at stored starts are frequent),
 // queries around the stored starts (start-1, start, start+1, start+4, start+5: the view-change offset),
 // prunes mostly at stored starts; a small share of cases uses negative starts (outside the property's domain,
@@ -184,6 +188,9 @@ func gen(r *rand.Rand, thorough bool, i int) []string {
 	switch r.Intn(12) {
 	case 0:
 		base = -4 // some negative starts
+		if r.Intn(3) == 0 {
+			base = -1 << 63
+		}
 	case 1:
 		base = 1<<63 - 1 - span
 	case 2:
@@ -206,6 +213,9 @@ func gen(r *rand.Rand, thorough bool, i int) []string {
 		case x < 9:
 			return base + r.Int63n(span+6)
 		default:
+			if r.Intn(2) == 0 {
+				return qbounds[r.Intn(len(qbounds))]
+			}
 			return bounds[r.Intn(len(bounds))]
 		}
 	}
@@ -432,6 +442,7 @@ func main() {
 			{"new", "mb 3", "put 501 1", "mb 3", "mb 504", "mb 505", "mb 506", "prev 505", "prev 506"},
 			{"new", "put -1 1", "get -1", "get 0", "latest"},
 			{"new", "put 0 1", "get 5", "latest", "idx 5", "prev 9"},
+			{"new", "put 9223372036854775807 1", "get -9223372036854775808", "mb -9223372036854775808", "idx -9223372036854775808", "prev -9223372036854775808", "get 9223372036854775806", "mb 9223372036854775807", "put 0 2", "get -1", "mb -1", "prune 0", "get 9223372036854775807", "latest"},
 			{"new", "put 10 1", "put 20 2", "put 30 3", "prev 24", "prev 25", "prev 35", "prev 9", "round 0", "round 3", "round -1"},
 		},
 	})
